@@ -135,3 +135,67 @@ def mc_stage(tier_, names):
                 raise ToolError("vacuous model checking run %s: actions never taken: %s" % (n, dead))
             res.append(r)
     return res
+
+# ---------------------------------------------------------------------------
+# systematic enumeration of the implementation's decision tree (forced-choice hook)
+
+def edge_configs(tier_):
+    seeds = [sub_seed("edges", i) % (1 << 32) for i in range(6)]
+    def ec(P, depth, ext=False, buf=False, unsafe=False, tag=""):
+        return {"cfg": corpus.cfg(P, 0, 0, ext=ext, buf=buf, unsafe=unsafe), "depth": depth, "seeds": seeds,
+                "tag": tag or "P%d%s%s d%d" % (P, "+ext" if ext else "", "+buf" if buf else "", depth)}
+    if tier_ == "quick":
+        return [ec(5, 3, True, True), ec(5, 2), ec(4, 2, True, False), ec(3, 2), ec(2, 2, True, False), ec(1, 3), ec(0, 3)]
+    return [ec(5, 4, True, True), ec(5, 3), ec(4, 3, True, False), ec(4, 3), ec(3, 3, True, False), ec(2, 3, True, False),
+            ec(2, 3), ec(1, 4), ec(0, 5)]
+
+def edges_stage(tier_, key):
+    def compute(d):
+        build_harness()
+        cfgs = edge_configs(tier_)
+        cf = os.path.join(d, "edge_cfgs.json"); json.dump(cfgs, open(cf, "w"))
+        prefix = os.path.join(d, "edges_")
+        t0 = time.time()
+        p = run([PFV, "edges", cf, prefix], timeout=7200)
+        summary = json.loads(p.stdout.strip().split("\n")[-1])
+        t_gen = time.time() - t0
+        files, chunk = [], 4000
+        samples = []
+        for s in summary:
+            lines = [l for l in open(s["file"]).read().split("\n") if l]
+            if lines:
+                r = json.loads(lines[len(lines) // 2])
+                samples.append({"config": s["tag"], "path": [x[0] for x in r["path"]], "forced_opcode": r["op"],
+                                "emitted_hex": bytes(r["bytes"]).hex()[:60], "pre": r["pre"], "post": r["post"]})
+            for i in range(0, len(lines), chunk):
+                fp = "%s.part%d" % (s["file"], i // chunk)
+                open(fp, "w").write("\n".join(lines[i:i + chunk]) + "\n"); files.append((fp, s["tag"], i))
+            os.remove(s["file"])
+        t0 = time.time()
+        res = tlc.run_trace_shards("edges", "TraceEdges.tla", "TraceEdges.cfg", [f[0] for f in files], timeout=7200)
+        t_tlc = time.time() - t0
+        findings, done, states = [], 0, 0
+        for (fp, tag, base), (vals, st, wall) in zip(files, res):
+            states += st["distinct"]
+            lines = None
+            for v in vals:
+                if v and v[0] == "MSGS":
+                    for m in v[1]:
+                        if lines is None:
+                            lines = open(fp).read().split("\n")
+                        edge = json.loads(lines[m[1] - 1])
+                        findings.append({"kind": m[0], "tag": m[2], "why": m[3] if isinstance(m[3], str) else json.dumps(m[3]),
+                                         "config": tag, "edge": {k: edge[k] for k in ("cfg", "path", "op", "seed", "bytes", "pre", "post")}})
+                elif v and v[0] == "DONE":
+                    done += v[1]
+        total = sum(s["edges"] for s in summary)
+        if done != total:
+            raise ToolError("edge validation incomplete: TLC consumed %d of %d edges" % (done, total))
+        for fp, _, _ in files:
+            os.remove(fp)
+        return {"findings": findings[:2000], "n_findings": len(findings),
+                "coverage": {"configs": [{"config": s["tag"], "states_expanded": s["states"], "edges": s["edges"]} for s in summary],
+                             "edges": total, "states_expanded": sum(s["states"] for s in summary), "tlc_states": states,
+                             "gen_wall_s": round(t_gen, 1), "tlc_wall_s": round(t_tlc, 1), "exhaustive_to_depth": True},
+                "samples": samples[:4]}
+    return cached(key, "edges_" + tier_, compute)
